@@ -737,6 +737,8 @@ var profC03 = Profile{
 	Params: true, MultiOut: true, FanIn: true, FanOut: true,
 	// (outputs on the second file system always fail to be finalized - C01's business - so none here)
 	Subdirs: true, ParentAbs: true, NoOtherDevice: true, Extras: true, Cores: true, Zip: true, EmptyOuts: true, Joins: true,
+	// (Go-function tasks work in temp directories too; both ways of writing)
+	Custom: true, CustomIdiom: true,
 }
 
 // finalBefore: declared outputs that are already final (present) in a tree.
